@@ -21,10 +21,32 @@ def construction_cases(ctx, rep):
         def fun(x):
             calls[0] += 1
             return float(np.sum(np.asarray(x) ** 2))
-        kind = rng.choice(["x0", "snap", "ok", "edge", "edge"])
+        kind = rng.choice(["x0", "snap", "ok", "edge", "edge", "drawn", "drawn"])
         lb, ub, plb, pub = np.full(D, -4.0), np.full(D, 4.0), np.full(D, -2.0), np.full(D, 2.0)
         opts_extra = {}
-        if kind == "edge":
+        if kind == "drawn":
+            # x0 omitted: BADS draws the start point itself (fixed seed).  The drawn point and the mesh point it is moved to are read off an
+            # unconstrained twin; the constraint boundary is then laid between the two (drawn point infeasible, mesh point feasible), or the
+            # drawn point is made clearly infeasible, or feasible
+            seed = rng.randint(1, 10 ** 6)
+            opts_extra = {"random_seed": seed, "search_grid_number": rng.choice([10, 10, 6, 4])}
+            twin = BADS(lambda x: 0.0, None, lb, ub, plb, pub, options=dict({"display": "off"}, **opts_extra))
+            xd = np.ravel(np.array(twin.x0, dtype=float))
+            xs = np.ravel(twin.var_transf.inverse_transf(np.atleast_2d(twin.u)))
+            j = int(np.argmax(np.abs(xd - xs)))
+            sub = rng.choice(["between", "between", "far", "feasible"])
+            x0 = None
+            if sub == "between" and xd[j] != xs[j]:
+                mid, sgn = 0.5 * (xd[j] + xs[j]), (1.0 if xd[j] > xs[j] else -1.0)
+                cons = lambda X, j=j, mid=mid, sgn=sgn: sgn * (np.atleast_2d(X)[:, j] - mid)          # infeasible on the drawn point's side
+                drawn_infeasible = True
+            elif sub == "far":
+                cons = lambda X, j=j, c=xd[j]: 0.25 - np.abs(np.atleast_2d(X)[:, j] - c)              # a slab around the drawn point is infeasible
+                drawn_infeasible = True
+            else:
+                cons = lambda X, j=j, c=xd[j]: np.abs(np.atleast_2d(X)[:, j] - c) - 0.5                # a slab around the drawn point is feasible
+                drawn_infeasible = False
+        elif kind == "edge":
             # a coarse search grid, a hard bound that is not a grid point, a start point within half a grid cell of that bound and a feasible
             # set that is a thin strip along the face: wherever the gridised (and pulled-back) start ends up, it must have been checked
             lb, ub = np.full(D, -round(rng.uniform(3.3, 3.99), 3)), np.full(D, round(rng.uniform(3.3, 3.99), 3))
@@ -58,7 +80,22 @@ def construction_cases(ctx, rep):
             raised = "ValueError"
         except Exception as ex:
             raised = type(ex).__name__
-        case = {"kind": "construct", "D": D, "variant": kind, "x0": [float(v) for v in x0]}
+        case = {"kind": "construct", "D": D, "variant": kind, "x0": ([float(v) for v in x0] if x0 is not None else None), "options": opts_extra}
+        if kind == "drawn":
+            stats["drawn"] = stats.get("drawn", 0) + 1
+            stats["drawn_infeasible"] = stats.get("drawn_infeasible", 0) + drawn_infeasible
+            if raised not in (None, "ValueError"):
+                rep.disagree("Pipe.construct ~ BADS.__init__", f"construction without x0 raised {raised}", case)
+            elif drawn_infeasible and raised is None:
+                rep.violation("start_rejected", "bads.py:__init__", f"x0 omitted (random_seed={opts_extra['random_seed']}): the start point BADS drew, {xd.tolist()}, violates the non-box constraint "
+                              f"(it is moved to the mesh point {xs.tolist()}, which does not) and was not rejected with ValueError", case)
+            elif drawn_infeasible and calls[0] != 0:
+                rep.violation("no_call_before_reject", "bads.py:__init__", f"target called {calls[0]} times before the infeasible start point was rejected", case)
+            elif not drawn_infeasible and raised is not None and bool(np.all(np.asarray(cons(np.atleast_2d(xs))) <= 0)):
+                rep.disagree("Pipe.construct ~ BADS.__init__", f"feasible drawn start point rejected with {raised}", case)
+            if raised is None and not feas_after:
+                rep.violation("start_rejected", "bads.py:__init__ / _init_optim_state_", f"the constructor accepted a drawn start point whose gridised position {u0.ravel().tolist()} violates the non-box constraint", case)
+            continue
         # whatever the variant: a start point that the constructor ACCEPTS (as moved onto the grid and into the box) satisfies the constraint
         if raised is None and not feas_after:
             stats["accepted_starts_checked"] = stats.get("accepted_starts_checked", 0)
